@@ -3,6 +3,7 @@ package props
 import (
 	"fmt"
 	"go/token"
+	"sort"
 	"strings"
 
 	"golang.org/x/tools/go/ssa"
@@ -147,11 +148,16 @@ func runC01(c *an.Ctx) {
 		if f == nil {
 			continue
 		}
-		for _, e := range cg.Callers(f) {
-			if !c.P.InRepo(e.Caller.Func) || strings.HasSuffix(c.P.Fset.Position(e.Caller.Func.Pos()).Filename, "_test.go") {
-				continue
-			}
-			c.Check(allowedCommit[e.Caller.Func.Name()], "confine|"+st+".CommitTo|"+an.FuncName(e.Caller.Func), "store batches are committed only by submitBlock, recoverStore and the reset/check helpers", c.P.Rel(e.Site.Pos()), "unexpected committer")
+		// private helpers of an allowed committer are looked through (the sequence rules above cover them by
+		// entering them from submitBlock / recoverStore)
+		callers := entryCallers(c, cg, f, func(g *ssa.Function) bool { return allowedCommit[g.Name()] })
+		var cs []*ssa.Function
+		for g := range callers {
+			cs = append(cs, g)
+		}
+		sort.Slice(cs, func(i, j int) bool { return cs[i].String() < cs[j].String() })
+		for _, g := range cs {
+			c.Check(allowedCommit[g.Name()], "confine|"+st+".CommitTo|"+an.FuncName(g), "store batches are committed only by submitBlock, recoverStore and the reset/check helpers (or private helpers called only from them)", c.P.Rel(callers[g].Pos()), "unexpected committer")
 		}
 	}
 
@@ -248,12 +254,13 @@ func replayRange(c *an.Ctx, fn *ssa.Function) {
 	if getHash == nil {
 		return
 	}
-	calls := an.CallsTo(fn, getHash)
+	calls := an.CallsToReach(fn, getHash)
 	if len(calls) != 1 {
 		c.Undecide(key, rule, c.P.Rel(fn.Pos()), fmt.Sprintf("%d GetBlockHash calls", len(calls)))
 		return
 	}
-	arg := argsNoRecv(calls[0].Common())[0]
+	// when the loop body lives in a helper, the height is the helper's parameter: follow it to the loop
+	arg := an.ResolveActual(fn, argsNoRecv(calls[0].Common())[0])
 	base, off, ok := linear(arg)
 	phi, isPhi := base.(*ssa.Phi)
 	if !ok || !isPhi {
